@@ -115,9 +115,10 @@ Proof.
     assert (Hpb : forall cnt k carry, Forall (fun w => match w with WHeight _ => False | _ => True end) carry ->
               Forall (Forall (fun w => match w with WHeight _ => False | _ => True end)) (fst (prune_blocks d keep_hist e k cnt carry))).
     { induction cnt; simpl; intros k carry Hc; [constructor|].
-      destruct (find_num k (d_fam d FSU)); [|constructor].
-      specialize (IHcnt (k + 1) [] ltac:(constructor)). destruct (prune_blocks d keep_hist e (k + 1) cnt []). simpl in *.
-      constructor; auto. apply Forall_app. split; auto. destruct (k + 1 =? e); destruct keep_hist; repeat constructor. }
+      destruct (find_num k (d_fam d FSU)) as [sb|]; [|constructor].
+      specialize (IHcnt (k + 1) [WDel FHashNum k (b_id sb)] ltac:(repeat constructor)).
+      destruct (prune_blocks d keep_hist e (k + 1) cnt [WDel FHashNum k (b_id sb)]). simpl in *.
+      constructor; auto. apply Forall_app. split; auto. destruct keep_hist; repeat constructor. }
     assert (Hg : forall cw, Forall (fun w => match w with WHeight _ => False | _ => True end) cw ->
        Forall (Forall (fun w => match w with WHeight _ => False | _ => True end))
          (let (bs, ok) := prune_blocks d keep_hist e n (N.to_nat (e - n)) cw in if ok then bs ++ [[]; prune_data_batch W e] else bs)).
